@@ -7,13 +7,23 @@ import numpy as np
 
 
 _ADDR = re.compile(rb" at 0x[0-9a-fA-F]+")
+#: scratch directory of the current run (set by the driver): paths below it that end up in recorded
+#: warning messages must not make structural digests depend on the process id
+SCRATCH = None
+
+
+def _norm(b):
+    b = _ADDR.sub(b" at 0xADDR", b)
+    if SCRATCH:
+        b = b.replace(SCRATCH, b"<SCRATCH>")
+    return b
 
 
 def _val_bytes(v):
     if isinstance(v, np.ndarray) and v.dtype.kind == "S":
         # object addresses inside recorded warning messages (repr of a dataset) are the one
         # source of nondeterminism that no seam controls: normalise them
-        return str(v.dtype).encode() + str(v.shape).encode() + _ADDR.sub(b" at 0xADDR", b"\n".join(v.ravel().tolist()))
+        return str(v.dtype).encode() + str(v.shape).encode() + _norm(b"\n".join(v.ravel().tolist()))
     if isinstance(v, np.ndarray):
         if v.dtype.kind == "O":
             return repr([x if not isinstance(x, bytes) else x.decode("utf-8", "replace") for x in v.ravel().tolist()]).encode()
@@ -21,8 +31,8 @@ def _val_bytes(v):
     if isinstance(v, np.generic):
         return str(v.dtype).encode() + v.tobytes()
     if isinstance(v, bytes):
-        return b"b" + v
-    return repr(v).encode("utf-8", "replace")
+        return b"b" + _norm(v)
+    return _norm(repr(v).encode("utf-8", "replace"))
 
 
 def h5_items(path):
